@@ -10,6 +10,17 @@
 #include "file_io.c"
 #include "posix_model.h"
 
+#ifndef FDN
+#define FDN 3
+#endif
+#if FDN == 0
+#define APP_A 1
+#define APP_B 2
+#else
+#define APP_A 0
+#define APP_B 1
+#endif
+
 static SF_PRIVATE g_fd, g_vio ;
 
 /* virtual I/O callbacks over the sub-file [k, k + sublen) of the same bytes */
@@ -95,16 +106,17 @@ main (void)
 		int nd_vio = nondet_int () ;
 		int nd_rsrc = nondet_int () ;
 		int rc ;
-		/* descriptors 0,1 belong to the application (never given to the library), 3 = file, 4 = resource fork */
-		px.fd [0].open = px.fd [1].open = 1 ;
-		px.fd [3].open = 1 ;
+		/* descriptors APP_A, APP_B belong to the application (never given to the library), FDN = the sound file (3, or 0: a process
+		** whose stdin was closed gets descriptor 0 from open ()), 4 = resource fork */
+		px.fd [APP_A].open = px.fd [APP_B].open = 1 ;
+		px.fd [FDN].open = 1 ;
 		px.len = 8 ;
 		psf_init_files (a) ;
 		VASSUME (nd_vio == 0 || nd_vio == 1) ;
 		VASSUME (nd_keep == 0 || nd_keep == 1) ;
 		a->virtual_io = nd_vio ;
 		if (! nd_vio)
-		{	psf_set_file (a, 3) ;
+		{	psf_set_file (a, FDN) ;
 			a->file.do_not_close_descriptor = nd_keep ;
 			} ;
 		if (nd_rsrc == 1)
@@ -119,15 +131,15 @@ main (void)
 		/* what psf_close () does */
 		rc = psf_fclose (a) ;
 		psf_close_rsrc (a) ;
-		VASSERT (px.fd [0].open && px.fd [1].open, "descriptors the library never received stay open") ;
+		VASSERT (px.fd [APP_A].open && px.fd [APP_B].open, "descriptors the library never received stay open") ;
 		if (nd_rsrc == 1)
 			VASSERT (px.fd [4].open, "a descriptor number the library already closed is never closed again") ;
 		if (nd_vio)
-			VASSERT (px.fd [3].open && px.fd [3].closed_by_lib == 0 && px.fd [0].closed_by_lib == 0 && px.fd [1].closed_by_lib == 0, "virtual I/O: no descriptor is closed at all") ;
+			VASSERT (px.fd [FDN].open && px.fd [FDN].closed_by_lib == 0 && px.fd [APP_A].closed_by_lib == 0 && px.fd [APP_B].closed_by_lib == 0, "virtual I/O: no descriptor is closed at all") ;
 		else if (nd_keep)
-			VASSERT (px.fd [3].open, "close_desc = 0: the caller's descriptor stays open") ;
+			VASSERT (px.fd [FDN].open, "close_desc = 0: the caller's descriptor stays open") ;
 		else
-			VASSERT (! px.fd [3].open && px.fd [3].closed_by_lib == 1, "close_desc = 1: the descriptor is closed exactly once") ;
+			VASSERT (! px.fd [FDN].open && px.fd [FDN].closed_by_lib == 1, "close_desc = 1: the descriptor is closed exactly once") ;
 		VASSERT (px.bad_close == 0, "close is never called on a descriptor that is not open") ;
 		VASSERT (rc == 0, "psf_fclose returns 0 when the underlying close succeeds") ;
 		VASSERT (a->file.filedes == -1 && a->rsrc.filedes == -1, "handle forgets its descriptors") ;
